@@ -57,6 +57,22 @@ def insertByVar (x : Lit) : List Lit → List Lit
 /-- `std::sort(…, variable(l0) < variable(l1))`, as a stable sort -/
 def sortByVar (ls : List Lit) : List Lit := ls.foldr insertByVar []
 
+/-- insertion step of the sort by literal index (`lit::operator<`) -/
+def insertByIdx (x : Lit) : List Lit → List Lit
+  | [] => [x]
+  | y :: t => if x.idx ≤ y.idx then x :: y :: t else y :: insertByIdx x t
+
+/-- `std::sort(ls.begin(), ls.end())` -/
+def sortByIdx (ls : List Lit) : List Lit := ls.foldr insertByIdx []
+
+/-- `std::unique` -/
+def dedupAdj : List Lit → List Lit
+  | a :: b :: t => if a = b then dedupAdj (b :: t) else a :: dedupAdj (b :: t)
+  | l => l
+
+/-- the argument list of `new_at_most_one` / `new_exct_one` as a sorted set of literals -/
+def sortDedup (ls : List Lit) : List Lit := dedupAdj (sortByIdx ls)
+
 /-- the filtering loop of `new_clause`: `none` = already satisfied / tautology -/
 def scanClause (s : Enc) : List Lit → Option Lit → List Lit → Option (List Lit)
   | [], _, acc => some acc.reverse
@@ -219,14 +235,14 @@ def amoCore (fuel : Nat) (s : Enc) (ls : List Lit) : Lit × Enc :=
 
 /-- `new_at_most_one(ls)` -/
 def newAtMostOne (s : Enc) (ls : List Lit) : Lit × Enc :=
-  match scanCard s (sortByVar ls) none [] with
+  match scanCard s (sortDedup ls) none [] with
   | .twoTrue => (Lit.falseLit, s)
   | .oneTrue others => s.newConj (others.map Lit.neg)
   | .open ls => amoCore ls.length s ls
 
 /-- `new_exct_one(ls)` -/
 def newExctOne (s : Enc) (ls : List Lit) : Lit × Enc :=
-  match scanCard s (sortByVar ls) none [] with
+  match scanCard s (sortDedup ls) none [] with
   | .twoTrue => (Lit.falseLit, s)
   | .oneTrue others => s.newConj (others.map Lit.neg)
   | .open [] => (Lit.falseLit, s)
